@@ -173,7 +173,7 @@ CHECKS = {
                     quick=dict(shards=4, checks=150, timeout=300),
                     thorough=dict(shards=16, checks=2500, timeout=1800))],
         rule='cases = generated hands with action time 0..30 s and 0-3 deadline extensions of 0..60 s at turns; oracle: for every turn of an unmoved player with wager actions t0+ActionTime <= deadline <= t1+ActionTime (t0 before the causing call, t1 at receipt), deadline 0 on every round close, at open and between hands, extension returns and publishes old+d exactly; non-trivial = a hand with turns in >=2 rounds or an extension; distinct = distinct abstract traces',
-        mandatory=dict(quick=['turns', 'extension', 'extension_x3', 'action_time_0', 'multi_round_turns']),
+        mandatory=dict(quick=['extension_during_settlement', 'turns', 'extension', 'extension_x3', 'action_time_0', 'multi_round_turns']),
         assumptions=ASSUME_COMMON,
     ),
     "C16": dict(
@@ -215,7 +215,7 @@ CHECKS = {
                  thorough=dict(shards=16, checks=12, timeout=900)),
         ],
         rule="callback part (c17cb): the same generated CT / cash scenario (table duration 1 s, one hand played after it is over) on a bare engine with hand-registered callbacks and on a table created through the Manager; every callback kind the bare engine delivers (table, state, player-state, reserved, action, first-game, auto-open-end) must also be delivered by the manager-created table; (1) facade: the whole table-history driver (create, start, set-up, settlement-finish, reserve/join/re-buy/add-on/leave, blind update, deadline extension, all nine game actions incl. intruder attempts) is routed through Manager.X(tableID, ...) and the oracles of C01, C10, C12 and C15 apply unchanged; (2) twin managers with 1..6 tables and identical settings: a drawn sequence over all 25 manager methods is applied through the manager on one and through the engine obtained with GetTableEngine on the other; results (errors by text, values) and normalised table state must agree after every step; (3) every other table's state is byte-identical before and after each operation; (4) never-created / closed / released ids yield ErrManagerTableNotFound (-1 for the deadline); non-trivial = a sequence touching >=2 tables with at least one method of each group; distinct = distinct method sequences",
-        mandatory=dict(quick=['callback_autoend', 'callbacks_cash', 'callbacks_ct', "m:PauseTable", "m:CloseTable", "m:ReleaseTable", "m:StartTableGame", "m:UpdateBlind", "m:SetUpTableGame", "m:UpdateTablePlayers", "m:PlayerReserve", "m:PlayerJoin", "m:PlayerSettlementFinish", "m:PlayerRedeemChips", "m:PlayersLeave", "m:PlayerExtendActionDeadline", "m:PlayerReady", "m:PlayerPay", "m:PlayerBet", "m:PlayerRaise", "m:PlayerCall", "m:PlayerAllin", "m:PlayerCheck", "m:PlayerFold", "m:PlayerPass", "m:GetTableEngine", "m:CreateTable", "unknown_id", "closed_id", "released_id", "tables_6", "refused_create"]),
+        mandatory=dict(quick=['players_leave_empty_list', 'callback_autoend', 'callbacks_cash', 'callbacks_ct', "m:PauseTable", "m:CloseTable", "m:ReleaseTable", "m:StartTableGame", "m:UpdateBlind", "m:SetUpTableGame", "m:UpdateTablePlayers", "m:PlayerReserve", "m:PlayerJoin", "m:PlayerSettlementFinish", "m:PlayerRedeemChips", "m:PlayersLeave", "m:PlayerExtendActionDeadline", "m:PlayerReady", "m:PlayerPay", "m:PlayerBet", "m:PlayerRaise", "m:PlayerCall", "m:PlayerAllin", "m:PlayerCheck", "m:PlayerFold", "m:PlayerPass", "m:GetTableEngine", "m:CreateTable", "unknown_id", "closed_id", "released_id", "tables_6", "refused_create"]),
         assumptions=ASSUME_COMMON + ["hands are not twinned (the manager builds its own backend); hand-level effects of the player-game methods are covered by the facade part"],
     ),
     "C18": dict(
@@ -229,7 +229,7 @@ CHECKS = {
                  thorough=dict(shards=4, checks=1, timeout=1800)),
         ],
         rule="(1) real snapshots published at the decision points of generated hands (stacks from one chip, blinds above stacks, antes, facing all-ins, every request kind) are presented K=6 (quick) / 20 (thorough) times to fresh bots for every player at the table and a stranger through a recording Adapter; oracle: silent when not asked or stale, otherwise exactly one call for itself that the real hand engine accepts for the real state, allowed kind, legal amount; (2) tables played entirely by bots through the real adapter: no move rejected, hands settle (progress-based); non-trivial = a state where the asked stack is <= the minimum bet, faces an all-in or has only allin/fold, or a table hand with an all-in; distinct = distinct generated histories",
-        mandatory=dict(quick=['stale_view_after_following_the_hand', "stack_le_minbet", "facing_allin", "chose_bet", "chose_raise", "chose_call", "chose_check", "chose_fold", "chose_allin", "chose_pass", "chose_pay", "stale_view", "not_asked", "bot_table"]),
+        mandatory=dict(quick=['pay_with_table_level_raised_during_hand', 'stale_view_after_following_the_hand', "stack_le_minbet", "facing_allin", "chose_bet", "chose_raise", "chose_call", "chose_check", "chose_fold", "chose_allin", "chose_pass", "chose_pay", "stale_view", "not_asked", "bot_table"]),
         assumptions=["the bot's random source cannot be seeded: each state is sampled K times", "humanized mode (real thinking delays) is not exercised"],
     ),
     "C19": dict(
@@ -242,7 +242,7 @@ CHECKS = {
                  thorough=dict(shards=4, checks=1, timeout=1800)),
         ],
         rule="real decision-point snapshots presented to fresh player runners for every player and a stranger in status running / idle / suspended with action time 0, plus a timed batch (1-2 s thinking time, armed together, judged after one wait) in which half of the runners first go through a drawn history of status calls (Idle / Resume / Suspend / SetSuspendThreshold), requests that time out at once and manual actions; a model of that status interface says whether the final request must wait (running or idle below the threshold), is answered at once (explicit Suspend) or either (suspended by count); oracle: never call/bet/raise/allin, pass immediately when it is the only option, otherwise the conservative choice (ready > check > fold > mandatory payment of exactly the posted size) immediately when suspended or action time 0, else not before the thinking time and the conservative choice afterwards, at most one call, nothing when not asked; non-trivial = conservative choice differs from the first allowed action, a mandatory payment, or a timed case; distinct = distinct generated histories / presentations",
-        mandatory=dict(quick=["choice_pass", "choice_ready", "choice_check", "choice_fold", "choice_pay_ante", "choice_pay_sb", "choice_pay_bb", "suspended", "idle", "timed_1s", "timed_2s", "history_expect_wait", "history_expect_now", "history_idle_call_after_timeouts"]),
+        mandatory=dict(quick=['pay_with_table_level_raised_during_hand', "choice_pass", "choice_ready", "choice_check", "choice_fold", "choice_pay_ante", "choice_pay_sb", "choice_pay_bb", "suspended", "idle", "timed_1s", "timed_2s", "history_expect_wait", "history_expect_now", "history_idle_call_after_timeouts"]),
         assumptions=["the upper side (acts once the time is up) relies on a 1.5 s margin"],
     ),
     "C20": dict(
@@ -250,7 +250,7 @@ CHECKS = {
                     quick=dict(shards=4, checks=100, timeout=300),
                     thorough=dict(shards=16, checks=2500, timeout=1800))],
         rule="every table notification (OnTableUpdated and OnTableStateUpdated) of generated hands, including the re-publications caused by table-level operations during a hand (reserve / join / re-buy / add-on / deadline extension), (all statuses and hand phases, showdown and fold-out endings, and hands that keep running after an external PauseTable / CloseTable) is handed - inside the engine's callback, as the engine's live table - to 1..5 actors attached in a drawn order (non-system observer, system observer, a scribbling system observer, a player runner) through the real TableEngineAdapter; oracle: the non-system observer is never shown deck, burned cards, hole cards or hand strength while the hand is in play, nor those of folded players after it closed; the engine's table is unchanged by the fan-out; no actor shares structure with the engine or another actor; what one actor changes is invisible to the others; the system observer gets the unmasked copy; non-trivial = a snapshot with dealt hole cards or a closed hand with folded and shown players; distinct = distinct generated histories",
-        mandatory=dict(quick=['system_mode_switched_off_mid_hand', "playing_with_cards", "closed_showdown_with_fold", "closed_foldout", "paused_during_hand", "table_level_op_during_hand", "actors_1", "actors_5"]),
+        mandatory=dict(quick=['observer_attached_during_hand', 'system_mode_switched_off_mid_hand', "playing_with_cards", "closed_showdown_with_fold", "closed_foldout", "paused_during_hand", "table_level_op_during_hand", "actors_1", "actors_5"]),
         assumptions=["only snapshots the engine emits are presented"],
     ),
     "C04": dict(
